@@ -115,6 +115,19 @@ def gen_pipeline_stages():
             raise ExtractError(f"pipeline.rs::{nm}: cache hit no longer clones the cached output")
     # StageOutput derives Clone and Compiled carries a Heap
     ty = strip_comments(rd("driver/src/pipeline/types.rs"))
+    # is a Compiled output ever put into the cache?  (repair of KF-C16-1/2:
+    # `if stage.cacheable() && output.cacheable()` with StageOutput::cacheable() = !Compiled)
+    sites = [re.findall(r"if\s+stage\.cacheable\(\)\s*(&&\s*output\.cacheable\(\)\s*)?\{\s*self\.cache\.insert", b) for b in (ex, ci)]
+    if any(len(x) != 1 for x in sites):
+        raise ExtractError("pipeline.rs: cache insertion test of unexpected shape")
+    guarded = [bool(x[0]) for x in sites]
+    oc = re.search(r"fn\s+cacheable\s*\(&self\)\s*->\s*bool\s*\{\s*!\s*matches!\(\s*self\s*,\s*StageOutput::Compiled\s*\([^)]*\)\s*\)\s*\}", ty)
+    if all(guarded) and oc:
+        compiled_cached = False
+    elif not any(guarded):
+        compiled_cached = True
+    else:
+        raise ExtractError("pipeline.rs/types.rs: only some cache insertions test output.cacheable(), or StageOutput::cacheable changed")
     if not re.search(r"#\[derive\([^)]*\bClone\b[^)]*\)\]\s*pub\s+enum\s+StageOutput", ty):
         raise ExtractError("types.rs: StageOutput no longer derives Clone")
     if not re.search(r"enum\s+StageOutput\s*\{[^}]*Compiled\s*\(\s*Box<Function>\s*,\s*Heap\s*,", ty, flags=re.S):
@@ -139,4 +152,6 @@ def gen_pipeline_stages():
                f"Definition cacheable_stages_stateless : bool := {'true' if ok else 'false'}.\n")
     out.append(f'Definition compile_break_name : string := "{brk}".\n')
     out.append(f"(* `impl Clone for Heap`: clone() is `Self::new()` *)\nDefinition heap_clone_is_empty : bool := {'true' if empty else 'false'}.\n")
+    out.append("(* does the cache ever hold a StageOutput::Compiled (whose clone is not faithful)? *)\n"
+               f"Definition compiled_outputs_are_cached : bool := {'true' if compiled_cached else 'false'}.\n")
     return write_if_changed("PipelineStages.v", "".join(out))
